@@ -28,10 +28,11 @@ JudgeEv(t, e) ==
          IF e.predicted # "none" /\ e.confirmed = "yes" /\ ~e.batch_failed
            THEN {[clause |-> "C01.entry_order", locus |-> [exctype |-> e.realtype, msgclass |-> e.realclass, entrykind |-> e.entrykind]]} ELSE {}
     [] e.k = "importstmt" ->
-         IF ClosedStmt(t, e) /\ (e.level = 0 \/ e.resolves) THEN {}
+         IF ClosedStmt(t, e) /\ e.resolves THEN {}
          ELSE IF e.top = "pyopenapi_gen" THEN {[clause |-> "C12.generator_import", locus |-> [depth |-> e.depth, modkind |-> e.modkind]]}
          ELSE IF ~ClosedStmt(t, e) THEN {[clause |-> "C12.foreign_import", locus |-> [top |-> e.top, depth |-> e.depth, modkind |-> e.modkind, guarded |-> e.guarded]]}
-         ELSE {[clause |-> "C12.unresolved_relative", locus |-> [depth |-> e.depth, modkind |-> e.modkind]]}
+         ELSE {[clause |-> IF e.level > 0 THEN "C12.unresolved_relative" ELSE "C12.unresolved_absolute",
+                locus |-> [depth |-> e.depth, modkind |-> e.modkind]]}
     [] e.k = "genimport" ->
          {[clause |-> "C12.generator_import", locus |-> [depth |-> "runtime", modkind |-> "any"]]}
     [] e.k = "runtimefile" ->
